@@ -107,7 +107,10 @@ struct Hdr {
 
 fn header(cfg: &DemoCfg) -> Hdr {
     let mut r = Prng::new(mix(cfg.seed, 0x686472, 0));
-    let s = |r: &mut Prng, n: usize| -> Vec<u8> { (0..n).map(|_| 0x21 + r.below(0x5e) as u8).collect() };
+    // header strings are bytes: mostly printable ASCII, in a third of the runs any non-NUL bytes (Latin-1 names,
+    // UTF-8 cut in the middle of a character at the capacity, 0x80 / 0xff)
+    let any_bytes = r.chance(1, 3);
+    let s = |r: &mut Prng, n: usize| -> Vec<u8> { (0..n).map(|_| if any_bytes && r.chance(1, 2) { *r.pick(&[0x80u8, 0xff, 0xe9, 0xc3, 0xa4, 0xf0, 0x9f, 0x01, 0x7f]) } else { 0x21 + r.below(0x5e) as u8 }).collect() };
     Hdr {
         net_version: s(&mut r, cfg.hdr[0].min(63) as usize),
         map_name: s(&mut r, cfg.hdr[1].min(63) as usize),
